@@ -964,9 +964,15 @@ class Manager:
             stderr.write(f'Unhandled ERROR: {exc}\n')
             stderr.write(format_exc())
         finally:
-            with contextlib.suppress(Exception):
-                self.tick()
-
-        self.root._executing_thread = None
-        self.__thread = None
-        self.__process = None
+            try:
+                with contextlib.suppress(Exception):
+                    self.tick()
+                    # An exit code on its way out (SystemExit from
+                    # stop(code)) skips the loop above: dispatch what
+                    # stopping has queued.
+                    while len(self._queue):
+                        self.tick()
+            finally:
+                self.root._executing_thread = None
+                self.__thread = None
+                self.__process = None
